@@ -5,7 +5,11 @@ unchecked arithmetic construct on i16 anywhere in the evaluator, every checked_*
 unpacked into Integer-or-OVERFLOW, division separates DIVISION BY ZERO from MIN/-1, and every
 float->integer / wide->i16 cast sits under both range guards. Does not decide numeric results."""
 from lib.mir import loc, op_place
+import re
+
 from rules import common
+
+LOCAL1 = re.compile(r"_(\d+)")
 
 ARITH = {"Add", "Sub", "Mul", "Div", "Rem", "Shl", "Shr",
          "AddUnchecked", "SubUnchecked", "MulUnchecked", "ShlUnchecked", "ShrUnchecked",
@@ -52,6 +56,12 @@ def run(ctx):
              "unchanged into Val::Integer, the None arm constructs OVERFLOW; for checked_div / "
              "checked_rem every DIVISION BY ZERO construction is under `divisor == 0` and the "
              "MIN/-1 case (None with divisor != 0) yields OVERFLOW for \\ and 0 for MOD")
+    ctx.rule("C08.d", "each arithmetic entry point computes its Integer x Integer (or Integer) cell "
+             "with its own exact idiom on the unmodified operands: the matching i16::checked_* "
+             "called on the matched payloads, or the operation carried out in a wider integer "
+             "type followed by a checked narrowing; routing through another operator's checked "
+             "primitive (e.g. a - b as a + (-b)) is rejected because the intermediate can "
+             "overflow when the exact result fits")
     ctx.rule("C08.c", "every FloatToInt cast, and every int cast into i16 from a wider type, in "
              "mach::* is dominated by a lower and an upper range test of the same source value "
              "against the target type's bounds, and the function can construct OVERFLOW")
@@ -71,6 +81,7 @@ def run(ctx):
             continue  # lang::line's cast is C14.c's
         n_c += rule_c(ctx, f)
     ctx.floor("C08.c", "range-guarded casts", n_c, 9)
+    rule_d(ctx)
     common.selftest(ctx, "C08.a", ["neg_i16", "add_i16", "abs_i16", "wrapping_i16"], rule_a)
     common.selftest(ctx, "C08.c", ["float_cast"], rule_c)
     if ctx.tier == "thorough":
@@ -208,6 +219,107 @@ def rule_b(ctx, f):
                       "None arm of %s does not construct exactly OVERFLOW (%s)"
                       % (meth, [c_ for _b, c_, _s in none_codes]))
     return n
+
+
+OPERATOR_PRIMS = {
+    # entry point -> (checked primitive, MIR binop used by the widening idiom, operand count)
+    "mach::operation::Operation::sum": ("checked_add", "Add", 2),
+    "mach::operation::Operation::subtract": ("checked_sub", "Sub", 2),
+    "mach::operation::Operation::multiply": ("checked_mul", "Mul", 2),
+    "mach::operation::Operation::power": ("checked_pow", None, 2),
+    "mach::operation::Operation::divint": ("checked_div", "Div", 2),
+    "mach::operation::Operation::remainder": ("checked_rem", "Rem", 2),
+    "mach::operation::Operation::negate": ("checked_neg", "Neg", 1),
+    "mach::function::Function::abs": ("checked_abs", None, 1),
+}
+WIDE = ("i32", "i64", "i128", "isize")
+
+
+def rule_d(ctx):
+    cr = ctx.lib
+    for path, (prim, wop, nops) in sorted(OPERATOR_PRIMS.items()):
+        f = cr.need_fn(path)
+        ctx.touch(f)
+        key = "%s/exact-idiom" % path
+        calls = f.calls_matching(r"^core::num::<impl i16>::%s$" % prim)
+        ok = False
+        how = ""
+        for c in calls:
+            # operands must be the function's own integer operands: match payloads of the
+            # arguments or results of the i16 conversion of the arguments (not results of other
+            # arithmetic)
+            good = True
+            for a in c.args[:nops]:
+                if not _is_plain_operand(f, a):
+                    good = False
+            if good:
+                ok = True
+                how = "i16::%s on the unmodified operands" % prim
+        if not ok and wop:
+            for b, i, st in f.assigns():
+                rv = st["rv"]
+                if rv["k"] in ("binop",) and rv["op"].startswith(wop) and rv["lty"] in WIDE:
+                    if _from_i16_cast(f, rv["l"]) and _from_i16_cast(f, rv["r"]):
+                        narrowing = f.calls_matching(r"TryFrom<i(32|64|128|size)> for i16>::try_from")
+                        if narrowing:
+                            ok = True
+                            how = "computed in %s and narrowed with i16::try_from" % rv["lty"]
+        others = sorted({(c.callee or "").rsplit("::", 1)[-1] for c in f.calls()
+                         if (c.callee or "").startswith("mach::operation::Operation::")})
+        ctx.check(ok, "C08.d", key, f.span, how,
+                  "the Integer cell of %s is not computed by i16::%s on its own operands nor by a "
+                  "widened operation%s: an intermediate overflow can replace an exact in-range "
+                  "result" % (path.rsplit("::", 1)[-1], prim,
+                              " (it calls %s)" % others if others else ""))
+
+
+def _is_plain_operand(f, op):
+    v = f.value_of_operand(op)
+    if v is None:
+        return False
+    if v["k"] == "place":
+        # (arg as Integer).0 or (branch-result as Continue).0
+        m = LOCAL1.search(v["s"])
+        if not m:
+            return False
+        root = f.value_of_local(int(m.group(1)))
+        if root["k"] == "arg":
+            return True
+        if root["k"] == "call":
+            return _conv_of_arg(f, root["call"])
+        return False
+    if v["k"] == "arg":
+        return True
+    if v["k"] == "multi":
+        # user variable bound once per arm from a payload
+        for d in v["defs"]:
+            if d[0] == "stmt" and d[3]["k"] == "use" and not _is_plain_operand(f, d[3]["op"]):
+                return False
+        return True
+    if v["k"] == "rv" and v["rv"]["k"] == "cast":
+        # r as u32 for checked_pow's exponent
+        return _is_plain_operand(f, v["rv"]["op"])
+    return False
+
+
+def _conv_of_arg(f, call):
+    """Try::branch(i16::try_from(arg)) chain"""
+    nm = call.callee or ""
+    if nm.endswith("Try::branch") or nm.endswith("TryFrom::try_from"):
+        v = f.value_of_operand(call.args[0])
+        if v is None:
+            return False
+        if v["k"] == "arg":
+            return True
+        if v["k"] == "call":
+            return _conv_of_arg(f, v["call"])
+    return False
+
+
+def _from_i16_cast(f, op):
+    v = f.value_of_operand(op)
+    return bool(v and v["k"] == "rv" and v["rv"]["k"] == "cast" and v["rv"]["from"] == "i16"
+                and _is_plain_operand(f, v["rv"]["op"]))
 
 
 def _bound_to(f, op, payload):
